@@ -87,6 +87,7 @@ def _solution_case(draw, tier):
                 z0=draw(st.sampled_from([0.0, 0.25])),
                 pts=[[draw(st.floats(-3, 3)), draw(st.floats(-3, 3)), draw(st.sampled_from([1, -1])) * draw(st.floats(0.1, 2.0))] for _ in range(draw(st.integers(1, 5)))],
                 zmode=draw(st.sampled_from(["column", "zs_array", "zs_scalar"])), vector=draw(st.booleans()),
+                intpos=draw(st.integers(0, 3)) == 0,
                 units=draw(st.sampled_from([None, "mT", "uA/um"])))
 
 
@@ -280,6 +281,12 @@ def _solution(spec, res):
         t_frame = float(frames[j]["attrs"]["time"])
         pts = np.array(spec["pts"])
         pts[:, 2] = np.where(np.abs(pts[:, 2] - spec["z0"]) < 0.1, spec["z0"] + 0.3, pts[:, 2])
+        if spec.get("intpos"):
+            # positions given as integers, e.g. [1, 0, 2] ("a single list like [x, y, z] is also allowed")
+            pts = np.round(pts)
+            pts[:, 2] = np.where(pts[:, 2] == 0, 1, pts[:, 2])
+            pts = pts.astype(int)
+            res.label("integer positions")
         if spec["zmode"] == "column":
             args, kw = (pts,), {}
             zz = pts[:, 2]
